@@ -376,16 +376,18 @@ fn helper(name: &str, s: &mut Sites) -> Item {
         ),
         "br" => fdef("br", &["p"], iff(p(), call("cnt", vec![num(1.0)], s.next()), num(0.0)), Shape::F),
         "pure" => fdef("pure", &["p"], bin("*", p(), num(2.0)), Shape::F),
+        // the stateful call is the right-hand side of an assignment
+        "asg" => fdef("asg", &["p"], block(vec![let_("v", num(0.0)), S::Assign("v".into(), call("cnt", vec![p()], s.next()))], var("v")), Shape::F),
         // phasor: reads the sample rate on the dsp path
         "ph" => fdef("ph", &["p"], bin("%", bin("+", E::SelfV, bin("/", bin("*", bin("+", p(), num(1.0)), num(4800.0)), E::Sr)), num(1.0)), Shape::F),
         "deep" => fdef("deep", &["p"], bin("+", call("nest", vec![p()], s.next()), E::Mem(Box::new(p()), s.next())), Shape::F),
         _ => unreachable!("{name}"),
     }
 }
-const FS_HELPERS: [&str; 14] = ["cnt", "cnt2", "m", "dS", "dL", "two", "nest", "nestd", "br", "pure", "deep", "ph", "gamp", "cnt3"];
+const FS_HELPERS: [&str; 15] = ["cnt", "cnt2", "m", "dS", "dL", "two", "nest", "nestd", "br", "pure", "deep", "ph", "gamp", "cnt3", "asg"];
 fn helper_deps(name: &str) -> &'static [&'static str] {
     match name {
-        "nest" | "nestd" | "br" => &["cnt"],
+        "nest" | "nestd" | "br" | "asg" => &["cnt"],
         "deep" => &["cnt", "nest"],
         _ => &[],
     }
@@ -446,6 +448,7 @@ fn fs_radix() -> u64 {
         + 2 * 4 * 4                     // if (c) B else B
         + 2                             // arithmetic on last
         + 3                             // nested block with two stateful lets / dsp self / block shadowing a name
+        + 3                             // assignments whose right-hand side is a stateful call (plain, mem, under if)
 }
 pub fn fs_count(k: u32) -> u64 {
     seq_count(fs_radix(), k)
@@ -570,6 +573,34 @@ fn fs_stmt(c: &mut Ctx, mut o: u64) -> Option<()> {
             }
             c.ops.push("dsp_self".into());
             c.dsp_self = true;
+        }
+        3..=5 => {
+            // `let v = 0.0` then an assignment whose right-hand side is stateful: a call, a mem, or - under an if
+            // with unit arms - one call per arm
+            c.use_helper("cnt");
+            let v = c.fresh();
+            c.stmts.push(let_(&v, num(0.0)));
+            match o {
+                3 => {
+                    let a = c.atom(0)?;
+                    c.ops.push(format!("{v} = cnt({})", pe(&a, 0)));
+                    let s = c.sites.next();
+                    c.stmts.push(S::Assign(v.clone(), call("cnt", vec![a], s)));
+                }
+                4 => {
+                    c.ops.push(format!("{v} = mem(x) + cnt(1)"));
+                    let (s1, s2) = (c.sites.next(), c.sites.next());
+                    c.stmts.push(S::Assign(v.clone(), bin("+", E::Mem(Box::new(var(DSP_IN)), s1), call("cnt", vec![num(1.0)], s2))));
+                }
+                _ => {
+                    c.ops.push(format!("if (x) {{ {v} = cnt(1) }} else {{ {v} = cnt(10) }}"));
+                    let (s1, s2) = (c.sites.next(), c.sites.next());
+                    let t = E::Block(vec![S::Assign(v.clone(), call("cnt", vec![num(1.0)], s1))], None);
+                    let e = E::Block(vec![S::Assign(v.clone(), call("cnt", vec![num(10.0)], s2))], None);
+                    c.stmts.push(S::Expr(E::If(Box::new(var(DSP_IN)), Box::new(t), Box::new(e))));
+                }
+            }
+            c.vars.push(v);
         }
         _ => {
             // an inner block rebinds the most recent name; the outer binding must be unaffected afterwards
